@@ -374,6 +374,9 @@ func (g G) drawStyle(label string) Style {
 		s.B64Lines = g.rng(label+".b64LinesK", 1, 2)
 	}
 	s.BodyAndURL = g.chance(label+".bodyAndURL", 15)
+	if g.chance(label+".ct", 30) {
+		s.CT = g.rng(label+".ctK", 1, 3)
+	}
 	if g.chance(label+".hoistNS", 30) {
 		s.HoistNS = g.rng(label+".hoistNSK", 1, 2)
 	}
